@@ -1175,6 +1175,14 @@ def cyc3(lat):
     return bool(lat.get("cx") or lat.get("cy") or lat.get("cz"))
 
 
+def gauged3d(mode, o):
+    """Modes that divide by simple-update / BP bond weights of a 2D (loopy) boundary: their round-off grows with the
+    spread of those weights (see s_hotrg2d), so they get generic gaussian tensors rather than the nearly rank-one ones."""
+    if mode in ("projector", "su", "superorthogonal", "l2bp", "l2bp3d"):
+        return o.get("canonize", True) is not False or mode in ("l2bp", "l2bp3d", "su", "superorthogonal")
+    return mode == "projector3d" and bool(o.get("canonize"))
+
+
 @st.composite
 def s_sequence3d(draw):
     k = draw(st.integers(0, 6))
@@ -1218,8 +1226,8 @@ def s_b3d(group):
         mode = draw(st.sampled_from(modes))
         lat = draw(s_lattice3d(tier, allow_cyclic=(mode != "peps")))
         o = draw(s_opts3d(mode))
-        if o.get("canonize") and mode in ("projector3d",):
-            lat["kind"] = "gauss"  # gauging with regularised inverses, see s_hotrg2d
+        if gauged3d(mode, o):
+            lat["kind"] = "gauss"
         return {"lat": lat, "mode": mode, "sequence": draw(s_sequence3d()), "opts": o,
                 "final_contract": draw(st.sampled_from([True, True, False])), "inplace": draw(st.sampled_from([False, False, True])),
                 "binding": draw(st.integers(0, 2)) == 0, "chi_frac": draw(st.floats(0.0, 1.0))}
@@ -1257,19 +1265,35 @@ def run_b3d(case):
     return {"nt": lat["D"] >= 2 and (not binding or nb > 0), "cls": cls, "err": e}
 
 
+# belief-propagation / simple-update flavoured modes are exact only while every boundary tensor keeps a dangling
+# index (DESIGN S note): a sweep that swallows the last plane leaves a closed, loopy 2D network
+BP_MODES = ("l2bp3d", "l2bp", "su", "superorthogonal")
+
+
 @st.composite
 def s_side3d(draw, tier):
     mode = draw(st.sampled_from(MODES_3D + MODES_3D + MODES_3D_AG))
     lat = draw(s_lattice3d(tier, allow_cyclic=False))
-    fw = draw(st.sampled_from(DIRS3))
+    entry = draw(st.sampled_from(["from", "from", "plane_envs", "peps_sweep"]))
+    L = {"x": lat["Lx"], "y": lat["Ly"], "z": lat["Lz"]}
+    dirs = DIRS3
+    if mode in BP_MODES:
+        dirs = [d for d in DIRS3 if L[d[0]] >= 3]
+        if not dirs or entry == "peps_sweep":
+            mode, dirs = "peps", DIRS3
+    fw = draw(st.sampled_from(dirs))
+    # number of planes swept: all of them, or (always for the BP modes) all but the last
+    full = draw(st.booleans()) and mode not in BP_MODES
     o = draw(s_opts3d(mode, full=False))
     o.pop("lazy", None)
-    if o.get("canonize") and mode == "projector3d":
+    if entry == "plane_envs":
+        o.pop("equalize_norms", None)  # private helper: says nothing about where the stripped exponent goes (it is dropped)
+    if gauged3d(mode, o):
         lat["kind"] = "gauss"
     return {"lat": lat, "mode": mode, "from_which": fw, "opts": o, "spelling": draw(st.sampled_from(["plain", "inplace"])),
-            "entry": draw(st.sampled_from(["from", "from", "plane_envs", "peps_sweep"])),
+            "entry": entry, "nplanes": L[fw[0]] if (full or L[fw[0]] == 2) and mode not in BP_MODES else L[fw[0]] - 1,
             "binding": draw(st.integers(0, 2)) == 0, "chi_frac": draw(st.floats(0.0, 1.0)),
-            "interleave": draw(st.booleans())}
+            "auto_side": draw(st.integers(0, 3)) == 0}
 
 
 def run_side3d(case):
@@ -1279,23 +1303,24 @@ def run_side3d(case):
     ref, mag = reference(tn)
     e0 = float(np.real(tn.exponent))
     o = dict(case["opts"])
-    if o.get("equalize_norms") == "auto":
-        o.pop("equalize_norms")
     L = {"x": lat["Lx"], "y": lat["Ly"], "z": lat["Lz"]}
-    full = {d: (0, L[d] - 1) for d in "xyz"}
+    rng = {d: (0, L[d] - 1) for d in "xyz"}
     entry = case["entry"]
+    n = int(case["nplanes"])
+    if entry == "from":
+        rng[fw[0]] = (0, n - 1) if fw.endswith("min") else (L[fw[0]] - n, L[fw[0]] - 1)
     binding = bool(case["binding"]) and lat["D"] >= 2 and entry == "from"
-    chi = binding_chi(case["chi_frac"], lat["D"] ** L[fw[0]]) if binding else chi_exact(lat)
+    chi = binding_chi(case["chi_frac"], lat["D"] ** n) if binding else chi_exact(lat)
     cutoff = 1e-10 if binding else 0.0
     e, nb = 0.0, 0
-    info = dict(entry="3d:" + entry, mode=mode, from_which=fw, equalize=repr(o.get("equalize_norms", False)))
+    info = dict(entry="3d:" + entry, mode=mode, from_which=fw, eq=bool(o.get("equalize_norms")))
     if entry == "from":
         fn = tn.contract_boundary_from_ if case["spelling"] == "inplace" else tn.contract_boundary_from
-        res = fn(full["x"], full["y"], full["z"], fw, max_bond=chi, cutoff=cutoff, mode=mode, **o)
-        if case["spelling"] == "inplace" and res is None:
-            res = tn  # the in-place spelling is allowed to return nothing... the receiver is the result
+        res = fn(rng["x"], rng["y"], rng["z"], fw, max_bond=chi, cutoff=cutoff, mode=mode, **o)
         if not isinstance(res, qtn.TensorNetwork):
             raise Violation("returned-none" if res is None else "not-a-network", mode=mode, spelling=case["spelling"], entry="3d:from")
+        if case["spelling"] == "inplace" and res is not tn:
+            raise Violation("inplace-new-object", mode=mode, entry="3d:from")
         if binding:
             nb, _ = check_cap(res, chi, ndim=3, **info)
             if nb == 0:
@@ -1303,7 +1328,7 @@ def run_side3d(case):
         else:
             e = check_value(denote(res), ref, mag, **info)
     elif entry == "plane_envs":
-        envs = tn._compute_plane_envs(full["x"], full["y"], full["z"], fw, max_bond=chi, cutoff=0.0, mode=mode, **o)
+        envs = tn._compute_plane_envs(rng["x"], rng["y"], rng["z"], fw, max_bond=chi, cutoff=0.0, mode=mode, **o)
         ax = "xyz".index(fw[0])
         sweep = list(range(L[fw[0]])) if fw.endswith("min") else list(range(L[fw[0]] - 1, -1, -1))
         if set(envs) != set(sweep[1:]):
@@ -1316,22 +1341,16 @@ def run_side3d(case):
             v = env_value(tn, [env] + rest, e0)
             e = max(e, check_value(v, ref, mag, key=i, **info))
     else:
-        fn = tn.contract_peps_sweep_ if False else tn.contract_peps_sweep
-        for k in ("compress_late",):
-            o.pop(k, None)
+        o.pop("compress_late", None)
         if mode != "peps":
             o.pop("canonize_interleave", None)
-        res = tn.contract_peps_sweep(chi, cutoff=0.0, from_which=draw_or_none(case), mode=mode,
+        # from_which=None lets the code pick the side with the smallest plane
+        res = tn.contract_peps_sweep(chi, cutoff=0.0, from_which=None if case.get("auto_side") else fw, mode=mode,
                                      inplace=case["spelling"] == "inplace", **o)
         e = check_value(denote(res), ref, mag, **info)
     cls = lat_classes(lat) + ["mode=" + mode, "entry=" + entry, "from=" + fw, "binding" if binding else "exact", "spell=" + case["spelling"]]
-    cls += ["opt:" + k for k in sorted(o)]
+    cls += ["opt:" + k for k in sorted(o)] + (["planes=%d/%d" % (n, L[fw[0]])] if entry == "from" else [])
     return {"nt": lat["D"] >= 2, "cls": cls, "err": e}
-
-
-def draw_or_none(case):
-    # contract_peps_sweep: from_which=None lets the code pick the smallest plane
-    return None if case.get("interleave") and case["from_which"] == "zmax" else case["from_which"]
 
 
 @st.composite
